@@ -71,6 +71,16 @@ def program_throw(m, conts, throw_on, shape):
     elif shape == "later-throw":
         src += ("try { try { %s log.push('after'); null.x; log.push('unreachable'); } catch (e) { log.push('inner:' + e.name); } "
                 "finally { log.push('finally'); } } catch (e2) { log.push('outer:' + e2.name); }\n" % loop)
+    elif shape == "inner-loop":
+        # a loop, a switch and a labeled block are left inside the body before it throws
+        loop = ("for (const v of it) { log.push(v); if (C.includes(v)) continue; for (let j = 0; j < 2; j++) { if (j === 1) break; } "
+                "switch (v) { case 10: break; default: break; } blk: { break blk; } if (v === %d) throw new RangeError('t' + v); log.push('e' + v); }" % throw_on)
+        src += "try { %s log.push('after'); } catch (e) { log.push('catch:' + e.message); }\n" % loop
+    elif shape == "inner-try":
+        # a try statement in the body whose block leaves an inner loop before throwing
+        loop = ("for (const v of it) { log.push(v); try { for (;;) { break; } if (C.includes(v)) continue; if (v === %d) throw new RangeError('t' + v); log.push('e' + v); } "
+                "catch (e) { log.push('in:' + e.message); } finally { log.push('f' + v); } }" % throw_on)
+        src += "try { %s log.push('after'); } catch (e) { log.push('catch:' + e.message); }\n" % loop
     elif shape == "function":
         src += ("function f() { try { %s return 'done'; } catch (e) { log.push('catch:' + e.message); return 'caught'; } finally { log.push('finally'); } }\n"
                 "log.push(f());\n" % loop)
@@ -318,7 +328,7 @@ def run_throw(chk, th, stats):
         vals = [10 + i for i in range(m)]
         for t in vals + [99]:
             for conts in ([], [vals[0]], vals[:-1] if m > 1 else []):
-                for shape in ("plain", "finally", "later-throw", "function"):
+                for shape in ("plain", "finally", "later-throw", "function", "inner-loop", "inner-try"):
                     cs.append((m, conts, t, shape))
     if chk.replay:
         r = json.load(open(chk.replay))
